@@ -4,10 +4,11 @@ Monitor: call/return of stack (method) and stack_files; oracle: numpy
 concatenation of the inputs' pre-state arrays, and the split/stack inverse
 laws evaluated against bit-exact snapshots."""
 import copy
+import os
 
 import numpy as np
 
-from .. import gen_core, gen_ioapi, snapshot
+from .. import gen_core, gen_ioapi, harness, snapshot
 from ..cli import digest
 
 PROP = 'C04'
@@ -65,8 +66,11 @@ def gen(rng, idx, tier, seed):
         lens = [int(rng.integers(1, 5)) for _ in range(k)]
         seeds = [int(rng.integers(1 << 30)) for _ in range(k)]
         return {'mode': mode, 'file': fs, 'dim': dim, 'lens': lens,
-                'seeds': seeds, 'via': str(rng.choice(['method', 'method',
-                                                       'stack_files']))}
+                'seeds': seeds,
+                'via': ['method', 'stack_files', 'method', 'pncmfopen',
+                        'method', 'open_mfdataset'][(idx // 4) % 6],
+                # file names whose sorted order differs from argument order
+                'labels': [int(x) for x in rng.permutation(12)[:k]]}
     n = [d[1] for d in fs['dims'] if d[0] == dim][0]
     return {'mode': mode, 'file': fs, 'dim': dim,
             'parts': partition(rng, n)}
@@ -96,9 +100,12 @@ def run_concat(spec, res):
     files = [gen_core.build(piece_spec(spec['file'], dim, ln, sd))
              for ln, sd in zip(spec['lens'], spec['seeds'])]
     snaps = [snapshot.snap_file(f) for f in files]
+    if spec['via'] in ('pncmfopen', 'open_mfdataset'):
+        return run_concat_disk(spec, res, files, snaps)
+    rest = files[1:]
     try:
         if spec['via'] == 'method':
-            out = files[0].stack(files[1:], dim)
+            out = files[0].stack(rest, dim)
         else:
             out = stack_files(files, dim)
     except Exception as e:
@@ -109,8 +116,86 @@ def run_concat(spec, res):
                                                            e))
         return
     res.hook('stack.return')
+    problems = judge_concat(res, out, snaps, dim)
+    # the same pieces stacked again (same argument objects) must give the
+    # same file: the call must not have consumed or altered its arguments
+    again = []
+    if len(rest) != len(files) - 1 or any(a is not b for a, b in zip(
+            rest, files[1:])):
+        again.append('the list passed to stack() was modified by the call '
+                     '(%d -> %d entries)' % (len(files) - 1, len(rest)))
+    try:
+        if spec['via'] == 'method':
+            out2 = files[0].stack(rest, dim)
+        else:
+            out2 = stack_files(files, dim)
+        res.hook('stack.return')
+        again += ['second stack of the same pieces: ' + x
+                  for x in judge_concat(res, out2, snaps, dim)]
+    except Exception as e:
+        again.append('second stack of the same pieces raised %r' % (e,))
+    res.ev(digest(spec), any(dim in v.dims for v in snaps[0].vars.values()),
+           ['concat', 'via:' + spec['via'], 'files:%d' % len(files)])
+    if problems:
+        res.viol('wrong-concatenation', '; '.join(problems[:6]), dim=dim,
+                 via=spec['via'])
+    if again and not problems:
+        res.viol('restack-differs', '; '.join(again[:6]), dim=dim,
+                 via=spec['via'])
+
+
+def run_concat_disk(spec, res, files, snaps0):
+    """the multi-file open helpers on netCDF files on disk; reference =
+    concatenation of what opening each path on its own gives"""
+    import PseudoNetCDF as pnc
+    from PseudoNetCDF.core._files import netcdf
+    dim = spec['dim']
+    with harness.casedir() as d, harness.handles() as h:
+        paths = []
+        try:
+            for f, lab in zip(files, spec['labels']):
+                p = os.path.join(d, 'piece_%d.nc' % lab)
+                o = h.keep(f.save(p, format='NETCDF4', verbose=0))
+                o.close()
+                paths.append(p)
+            snaps = []
+            for p in paths:
+                g = h.keep(pnc.pncopen(p, format='netcdf'))
+                snaps.append(snapshot.snap_file(g))
+                g.close()
+        except Exception as e:
+            res.note('disk-pieces-not-writable:%s' % type(e).__name__)
+            res.ev(digest(spec), False, ['concat', 'disk-skip'])
+            res.hook('stack.return', 0)
+            return
+        try:
+            if spec['via'] == 'pncmfopen':
+                out = h.keep(pnc.pncmfopen(paths, format='netcdf',
+                                           stackdim=dim))
+            else:
+                out = h.keep(netcdf.open_mfdataset(*paths, stackdim=dim))
+        except Exception as e:
+            res.hook('stack.return')
+            res.ev(digest(spec), True, ['concat', 'raised'])
+            res.viol('in-domain-raise:%s' % type(e).__name__,
+                     '%s of %d files along %s raised %r' % (
+                         spec['via'], len(paths), dim, e), via=spec['via'])
+            return
+        res.hook('stack.return')
+        problems = judge_concat(res, out, snaps, dim)
+    res.ev(digest(spec), any(dim in v.dims for v in snaps[0].vars.values()),
+           ['concat', 'via:' + spec['via'], 'files:%d' % len(files),
+            'sorted-order-differs' if sorted(spec['labels'], key=str) !=
+            list(spec['labels']) else 'sorted-order-same'])
+    if problems:
+        res.viol('wrong-concatenation', '%s(%s): %s' % (
+            spec['via'], [os.path.basename(p) for p in paths],
+            '; '.join(problems[:6])), dim=dim, via=spec['via'])
+
+
+def judge_concat(res, out, snaps, dim):
     problems = []
-    total = sum(spec['lens'])
+    total = sum(len_of(s, dim) for s in snaps)
     if dim not in out.dimensions or len(out.dimensions[dim]) != total:
         problems.append('stacked dimension %s has length %s, expected %d'
                         % (dim, len(out.dimensions[dim])
@@ -137,10 +222,11 @@ def run_concat(spec, res):
             problems += snapshot.check_var(got, name, dims=v0.dims,
                                            data=v0.data, mask=v0.mask,
                                            dtype=v0.dtype)
-    res.ev(digest(spec), nontrivial, ['concat', 'via:' + spec['via'],
-                                      'files:%d' % len(files)])
-    if problems:
-        res.viol('wrong-concatenation', '; '.join(problems[:6]), dim=dim)
+    return problems
+
+
+def len_of(snap, dim):
+    return snap.dims[dim][0]
 
 
 def run_inverse(spec, res):
